@@ -84,3 +84,137 @@ def build(reg):
         raises={"IndexError": raises_index, "ValueError": raises_value},
         ensures={"field_map": post},
         result_type=TRec(word=STR, lemma=STR, label=STR, morph=STR, edge=STR, parent_num=INT)))
+
+
+# ----------------------------------------------------------------------------------------------------------------------
+# treeinput.brackets: one step of the bracket automaton (the body of `for lextoken, lexclass in lexer`) as a block
+# contract over (state, level, queue, term_cnt, cnt): the invariant below is kept by every step that does not raise,
+# every raise is a ValueError, the four "unknown state" branches and "unknown lexer token class" are unreachable,
+# every subscript of the stack is in range, and the step that yields a sentence resets the per-sentence state.
+# Proved for parameter sets without `disco` and `replace_parens`: those two branches (readline / a traversal that
+# rewrites characters) are outside the subset; a syntactic obligation checks that they assign none of the automaton's
+# variables, so they cannot disturb the invariant.
+# ----------------------------------------------------------------------------------------------------------------------
+AUTOMATON_VARS = ("state", "level", "queue", "term_cnt", "cnt")
+
+
+def lemma_brackets_automaton(reg, repo):
+    import ast
+    from pyvc.core import Exec, State
+    from pyvc.heap import Heap
+    from pyvc.sym import VRef, REF, fresh, qforall, Unsupported
+    from contracts.common import add_common
+    from contracts import c20
+    add_common(reg)
+    c20.build(reg)
+    qual = "trees.treeinput.brackets"
+    info = repo.fns.get(qual)
+    if info is None:
+        raise Unsupported("function %s no longer exists" % qual)
+    loop = None
+    for node in ast.walk(info.node):
+        if isinstance(node, ast.For) and ast.unparse(node.target) == "(lextoken, lexclass)":
+            loop = node
+    if loop is None:
+        raise Unsupported("the lexer loop of treeinput.brackets was not found (the contract no longer binds)")
+    PKEYS = {"brackets_emptypos": BOOL, "quiet": BOOL, "disco": BOOL, "disco_reordered": BOOL, "replace_parens": BOOL,
+             "gf_split": BOOL}
+    c = Contract(target=qual, prop="C01", args={}, params=PKEYS, loops={})
+    ex = Exec(repo, reg, info, c, prefix="C01.brackets_step")
+    H = Heap.fresh("B")
+    st = State(heap=H)
+    for t in H.typing():
+        st.assume(t)
+    assume = []
+    env = dict(
+        queue=fresh(TList(REF), "b_queue", assume=assume),
+        state=fresh(INT, "b_state"), level=fresh(INT, "b_level"), term_cnt=fresh(INT, "b_term_cnt"),
+        cnt=fresh(INT, "b_cnt"), lexclass=fresh(STR, "b_lexclass"), lextoken=fresh(STR, "b_lextoken"),
+        lasttoken=fresh(STR, "b_lasttoken"), gf_separator=fresh(STR, "b_gf_separator"))
+    for t in assume:
+        st.assume(t)
+    st.env.update(env)
+    st.env["params"] = ex._fresh_params(st, "bp")
+    has = st.env["params"].fields["has"]
+    st.assume(z3.Not(has["disco"]))
+    st.assume(z3.Not(has["replace_parens"]))
+    st.assume(z3.Length(tostr(env["gf_separator"])) == 1)
+    st.yielded = fresh(TList(REF), "b_yielded", assume=assume)
+    st.assume(st.yielded.n >= 0)
+    ex.entry_heap = H.copy()
+
+    def inv(e, heap):
+        q, s, l, tc = e["queue"], toint(e["state"]), toint(e["level"]), toint(e["term_cnt"])
+        j = z3.Int(fresh_name("qj"))
+        el = q.get(j)
+        nonnull = qforall([j], z3.Implies(z3.And(0 <= j, j < q.n), el.t != 0), [el.t]) if hasattr(el, "t") \
+            else z3.BoolVal(True)           # the empty list literal has no elements
+        return z3.And(
+            z3.Or(s == 0, s == 1, s == 2, s == 3, s == 4, s == 5, s == 9),
+            l == q.n, l >= 0, (s == 0) == (l == 0), tc >= 1,
+            # the stack holds allocated nodes
+            nonnull)
+
+    st.assume(inv(env, H))
+    lc = tostr(env["lexclass"])
+    st.assume(z3.Or(lc == S_("LRB"), lc == S_("RRB"), lc == S_("WS"), lc == S_("TOKEN")))
+    ex.obligations = []
+    n_y0 = st.yielded.n
+    q0, cnt0 = env["queue"], toint(env["cnt"])
+    outs = ex._with_raises(st, ex.exec_block(loop.body, st))
+    raise_nodes = {ex.line(n): n for n in ast.walk(loop) if isinstance(n, ast.Raise)}
+    vcs = []
+    for oi, o in enumerate(outs):
+        if o.kind == "raise":
+            node = raise_nodes.get(o.val)
+            text = ast.unparse(node) if node is not None else ""
+            if o.exc != "ValueError":
+                vcs.append(("path%d.L%s.only_ValueError_is_raised(%s)" % (oi, o.val, o.exc), list(o.st.pc), z3.BoolVal(False)))
+            elif "unknown" in text:
+                vcs.append(("path%d.L%s.unknown_state_branch_unreachable" % (oi, o.val), list(o.st.pc), z3.BoolVal(False)))
+            continue
+        if o.kind != "normal":
+            raise Unsupported("the automaton step leaves the loop body by %s" % o.kind)
+        e = o.st.env
+        vcs.append(("path%d.invariant_kept" % oi, list(o.st.pc), inv(e, o.st.heap)))
+        yielded = o.st.yielded
+        # a sentence was yielded on this path iff the yielded list has grown
+        grew = yielded.n == n_y0 + 1
+        vcs.append(("path%d.yields_at_most_one_sentence" % oi, list(o.st.pc), z3.Or(yielded.n == n_y0, grew)))
+        vcs.append(("path%d.reset_after_yield" % oi, list(o.st.pc), z3.Implies(grew, z3.And(
+            e["queue"].n == 0, toint(e["state"]) == 0, toint(e["level"]) == 0, toint(e["term_cnt"]) == 1,
+            toint(e["cnt"]) == cnt0 + 1,
+            # what is yielded is the bottom of the stack, with the sentence id that was current
+            yielded.get(n_y0).t == q0.get(0).t,
+            z3.Select(o.st.heap.f["val_sid"], q0.get(0).t) == cnt0))))
+        vcs.append(("path%d.sentence_counter_moves_only_with_a_yield" % oi, list(o.st.pc),
+                    z3.Implies(z3.Not(grew), toint(e["cnt"]) == cnt0)))
+    for ob in ex.obligations:
+        vcs.append(("step.%s" % ob.name.split(".", 2)[-1], list(ob.pc), ob.goal))
+    # the two branches outside the subset assign none of the automaton's variables
+    for node in ast.walk(loop):
+        if isinstance(node, ast.If) and ("'replace_parens' in params" in ast.unparse(node.test)
+                                         or "'disco' in params" in ast.unparse(node.test)):
+            written = set()
+            for sub in node.body:
+                for n in ast.walk(sub):
+                    if isinstance(n, (ast.Assign, ast.AugAssign, ast.For)):
+                        tg = n.targets if isinstance(n, ast.Assign) else [n.target]
+                        for t in tg:
+                            for nm in ast.walk(t):
+                                if isinstance(nm, ast.Name) and isinstance(nm.ctx, ast.Store):
+                                    written.add(nm.id)
+                    if isinstance(n, (ast.Yield, ast.Return, ast.Break, ast.Continue)):
+                        written.add("<control:%s>" % type(n).__name__)
+                    if isinstance(n, ast.Call) and isinstance(n.func, ast.Attribute) and isinstance(n.func.value, ast.Name) \
+                            and n.func.value.id == "queue":
+                        written.add("queue")
+            bad = sorted(written & (set(AUTOMATON_VARS) | {"<control:Yield>", "<control:Return>", "<control:Break>",
+                                                           "<control:Continue>"}))
+            vcs.append(("excluded_branch_L%d_leaves_the_automaton_alone" % ex.line(node), [], z3.BoolVal(not bad)))
+    return vcs
+
+
+lemma_brackets_automaton.target = "trees.treeinput.brackets"
+LEMMAS = dict(globals().get("LEMMAS", {}))
+LEMMAS["brackets_automaton"] = lemma_brackets_automaton
